@@ -158,18 +158,22 @@ func (e *Encoder) writeMap(data interface{}) (int, error) {
 // zero value of the key / element type (the end of a map is its 'Z', not a
 // null), and both are converted to those types
 func setMapEntry(m reflect.Value, key, value interface{}) {
+	setMapEntryIn(m, key, value, nil)
+}
+
+func setMapEntryIn(m reflect.Value, key, value interface{}, active converting) {
 	k := reflect.New(m.Type().Key()).Elem()
 	if key != nil {
-		setMapEntryPart(k, EnsureRawValue(key))
+		setMapEntryPart(k, EnsureRawValue(key), active)
 	}
 	v := reflect.New(m.Type().Elem()).Elem()
 	if value != nil {
-		setMapEntryPart(v, EnsureRawValue(value))
+		setMapEntryPart(v, EnsureRawValue(value), active)
 	}
 	m.SetMapIndex(k, v)
 }
 
-func setMapEntryPart(dest, v reflect.Value) {
+func setMapEntryPart(dest, v reflect.Value, active converting) {
 	if dest.Kind() == reflect.Interface {
 		if v.IsValid() {
 			// the ref table keeps maps behind a pointer: a back-reference to a map
@@ -181,7 +185,7 @@ func setMapEntryPart(dest, v reflect.Value) {
 		}
 		return
 	}
-	SetValue(dest, v)
+	setValue(dest, v, active)
 }
 
 //readTypedMap read typed map
